@@ -443,9 +443,13 @@ def canonical_apis(doc):
             if not fn or fn.get('local'):
                 continue
             r = fn.get('resolved') or {}
-            if r.get('local'):
-                continue            # a conversion implemented in this crate is analysed as the call it is
             src, dst = t['arg_tys'][0], t['dest_ty']
+            if r.get('local'):
+                # a conversion implemented in this crate keeps its resolved body; only the spelling is unified
+                if fn['path'] == 'core::convert::From::from':
+                    f['fn'] = _into_desc(src, dst, fn)
+                    n += 1
+                continue
             new = None
             if fn['path'] == 'core::convert::From::from':
                 if dst.startswith(('std::vec::Vec<', 'alloc::vec::Vec<')) and src.startswith('&[') and src.endswith(']'):
@@ -804,9 +808,10 @@ def thread_known_discriminants(doc):
                     ti = blocks[ti]['term']['target']
                     hops += 1
                 T = blocks[ti]
-                if T is P or len(T['stmts']) != 1 or T['term'].get('k') != 'switch':
+                if T is P or not T['stmts'] or len(T['stmts']) > 6 or T['term'].get('k') != 'switch' or T.get('cleanup'):
                     continue
-                ds = T['stmts'][0]
+                ds = T['stmts'][-1]
+                pre = T['stmts'][:-1]
                 if ds.get('k') != 'assign' or ds['rv'].get('k') != 'discriminant' or ds['rv']['place']['p']:
                     continue
                 if T['term']['discr'].get('place') != ds['place']:
@@ -822,6 +827,9 @@ def thread_known_discriminants(doc):
                         tgt = bb
                 if tgt is None:
                     tgt = T['term']['otherwise']
+                if any(st.get('k') != 'assign' or st['place']['l'] == xl for st in pre):
+                    continue
+                P['stmts'].extend(copy.deepcopy(pre))          # side-effect-free assignments that precede the branch in T
                 P['term'] = {'k': 'goto', 'target': tgt, 'line': pt.get('line'), 'syn': 'thread'}
                 n += 1
                 changed = True
